@@ -154,8 +154,50 @@ def gen_program(rng, tier, multi=False):
     return {'stream': 'multi' if multi else 'prog', 'blocks': blocks, 'init': init}
 
 
+def gen_continue(rng, tier):
+    """programs whose FIRST use of the three extension kinds (INC, SET, trigger/output) comes in every order and
+    only partly before a write + read; blocks added to the re-read object then introduce the missing kinds"""
+    kinds = ['INC', 'SET', 'TRG']
+    rng.shuffle(kinds)
+    n_pre = rng.choice([1, 1, 2, 2, 2, 3])
+    labs = rng.sample(labels(), rng.randint(1, 5))
+    tpool = [gen_trig(rng) for _ in range(rng.randint(1, 3))]
+
+    def block(allowed, must=None):
+        ops, trigs = [], []
+        use = [k for k in allowed if rng.random() < 0.6]
+        if must is not None and must not in use:
+            use.append(must)
+        chosen = rng.sample(labs, min(len(labs), rng.randint(1, 3)))
+        for lab in chosen:
+            ks = [k for k in use if k != 'TRG']
+            if ks:
+                ops.append([rng.choice(ks), lab, gen_value(rng, lab)])
+        if must in ('INC', 'SET') and not any(o[0] == must for o in ops):
+            ops = [o for o in ops if o[1] != chosen[0]] + [[must, chosen[0], gen_value(rng, chosen[0])]]
+        if 'TRG' in use:
+            trigs = [copy.deepcopy(rng.choice(tpool)) for _ in range(rng.choice([1, 1, 2]))]
+        return {'ops': ops, 'trigs': trigs, 'extra': gen_extra(rng), 'order': rng.random()}
+
+    pre = []
+    for j in range(n_pre):
+        pre.append(block(kinds[:j + 1], must=kinds[j]))          # kind j is first used in block j
+        for _ in range(rng.choice([0, 0, 1, 2])):
+            pre.append(block(kinds[:j + 1]))
+    post = []
+    for j in range(n_pre, 3):
+        post.append(block(kinds[:j + 1] if rng.random() < 0.5 else [kinds[j]], must=kinds[j]))   # a kind new to the file
+        for _ in range(rng.choice([0, 1])):
+            post.append(block(kinds[:j + 1]))
+    for _ in range(rng.choice([1, 1, 2, 3])):
+        post.append(block(kinds))
+    ninit = rng.choice([0, 1, 2])
+    init = [[l, rng.randint(-50, 50)] for l in dict.fromkeys(rng.sample(labs + labels()[:3], ninit))]
+    return {'stream': 'continue', 'blocks': pre, 'post': post, 'init': init, 'first_use': kinds, 'kinds_before_reload': n_pre}
+
+
 def one_op(case):
-    return all(len({o[1] for o in b['ops']}) == len(b['ops']) for b in case['blocks'])
+    return all(len({o[1] for o in b['ops']}) == len(b['ops']) for b in case['blocks'] + case.get('post', []))
 
 
 # ---- building real events ----------------------------------------------------------------------------
@@ -473,8 +515,44 @@ def run_program(ctx, case, pending):
         for i in list(s2.block_events.keys()):
             r.get(i)
         check_sequence(ctx, case, s2, expect, 'reread')
+        post_ok = True
+        if case.get('post'):
+            # continue building on the re-read object: kinds of extensions already in the file and new ones
+            expect2 = list(expect)
+            for spec in case['post']:
+                evs = build_block(spec)
+                rec = r.add(evs)
+                if rec['outcome'][0] != 'ok':
+                    ctx.fail('C19/extended-add_block-raises', case, {'block': len(expect2) + 1, 'error': rec['outcome'][1]})
+                    post_ok = False
+                    break
+                expect2.append(added_multisets(evs))
+            if post_ok:
+                for i in list(s2.block_events.keys()):
+                    r.get(i)
+                post_ok = check_sequence(ctx, case, s2, expect2, 'extended')
+                ctx.count('blocks.added_after_reload', len(case['post']))
         if ctx.model_available and case['stream'] != 'int32':
             pending.append((case, r, init, 'reread'))
+        if case.get('post') and post_ok:
+            s3 = None
+            with tempfile.TemporaryDirectory(prefix='pvC19') as d:
+                fn = os.path.join(d, 'b.seq')
+                try:
+                    s2.write(fn, create_signature=False)
+                    s3 = pp.Sequence(pp.Opts())
+                    s3.read(fn)
+                except Exception as e:  # noqa: BLE001
+                    ctx.fail('C19/extended-write-read-raises', case, {'exception': repr(e)[:300]})
+                    s3 = None
+            if s3 is not None:
+                r3 = Single(seq=s3)
+                r3.loaded()
+                for i in list(s3.block_events.keys()):
+                    r3.get(i)
+                check_sequence(ctx, case, s3, expect2, 'extended-reread')
+                if ctx.model_available:
+                    pending.append((case, r3, init, 'extended-reread'))
     nlab = sum(1 for b in case['blocks'] if b['ops'])
     shared = len({int(v[6]) for v in s.on.block_events.values() if v[6]}) < sum(1 for v in s.on.block_events.values() if v[6])
     multi_entry = any(int(v[2]) != 0 for v in s.on.extensions_library.data.values())
@@ -623,7 +701,12 @@ def corpus():
         {'ops': [['SET', 'LIN', 5], ['INC', 'LIN', 1]], 'trigs': [], 'extra': [['adc', 16, 1e-5, 0]], 'order': 0.0},
         {'ops': [['INC', 'LIN', 1], ['SET', 'LIN', 5]], 'trigs': [], 'extra': [['adc', 16, 1e-5, 0]], 'order': 0.0}]}
     c3 = {'stream': 'corpus', 'init': [['ECO', 3]], 'blocks': [{'ops': [], 'trigs': [], 'extra': [], 'order': 0.0}]}
-    return [c1, c2, c3]
+    c4 = {'stream': 'corpus', 'init': [], 'first_use': ['INC', 'SET', 'TRG'], 'kinds_before_reload': 2, 'blocks': [
+        {'ops': [['INC', 'LIN', 1]], 'trigs': [], 'extra': [], 'order': 0.0},
+        {'ops': [['SET', 'LIN', 0], ['INC', 'PAR', 1]], 'trigs': [], 'extra': [['adc', 16, 1e-5, 0]], 'order': 0.0}],
+        'post': [{'ops': [], 'trigs': [['trigger', 'physio1', 0, 2000]], 'extra': [], 'order': 0.0},
+                 {'ops': [['SET', 'LIN', 0]], 'trigs': [['output', 'osc0', 0, 100]], 'extra': [], 'order': 0.3}]}
+    return [c1, c2, c3, c4]
 
 
 def run(ctx):
@@ -634,6 +717,20 @@ def run(ctx):
     flush(ctx, pending)
     boundary_stream(ctx)
     int32_stream(ctx, ctx.rng('int32'))
+    # continue building on a re-read sequence (runs before the main stream so that a time-boxed run reaches it)
+    rngc = ctx.rng('continue')
+    for n in range({'quick': 150, 'thorough': 3000}[ctx.tier]):
+        if ctx.out_of_time():
+            break
+        case = gen_continue(rngc, ctx.tier)
+        ctx.count('continue.first_use.' + '-'.join(case['first_use']) + '/%d' % case['kinds_before_reload'])
+        run_program(ctx, case, pending)
+        if n == 3:
+            ctx.sample({'stream': 'continue', 'first_use': case['first_use'], 'pre': [[b['ops'], b['trigs']] for b in case['blocks'][:3]],
+                        'post': [[b['ops'], b['trigs']] for b in case['post'][:3]]})
+        if len(pending) >= 60:
+            flush(ctx, pending)
+    flush(ctx, pending)
     rng = ctx.rng('programs')
     rngm = ctx.rng('multi')
     for n in range(n_prog):
